@@ -130,6 +130,8 @@ pub fn run(outdir: &str, seed: u64, thorough: bool) -> serde_json::Value {
                     // a bare column as predicate (WHERE flag): boolean columns first, any column otherwise
                     let bools: Vec<usize> = (0..3).filter(|j| matches!(&tys[*j], Ty::Bool(_)) || matches!(&tys[*j], Ty::Opt(x) if matches!(**x, Ty::Bool(_)))).collect();
                     if !bools.is_empty() { Expr::col(COLS[*r.pick(&bools)]) } else { col(r) } },
+                // a negation above a conjunction, a disjunction or a comparison (NOT BETWEEN is NOT (x >= lo AND x <= hi))
+                5 if r.chance(1, 3) => Expr::not(gen_q(r, tys, depth - 1)),
                 5 | 6 => Expr::and(gen_q(r, tys, depth - 1), gen_q(r, tys, depth - 1)),
                 _ => Expr::or(gen_q(r, tys, depth - 1), gen_q(r, tys, depth - 1)),
             }
